@@ -3,7 +3,8 @@ stale one ... read-only queries never change the grammar").
 
 Abstract view of a JSON grammar:
 
-    grammar --__schema_builder--> builder(props: name -> property schema, req: the builder's OWN required set, has_req, meta: other root keywords)
+    grammar --__schema_builder--> builder(props: name -> property schema, has_strategy: a root strategy exists (after the first add_schema /
+                                          add_object), req: the builder's OWN required set, has_req: the strategy has one, meta: other root keywords)
             --_required_names--> RequiredNames(__names)      (the required names of the grammar live here, not in the builder)
             --__schema   : cached ``to_schema()`` dictionary ({} = no cache)
             --__validator: cached compiled validator (None = no cache)
@@ -65,7 +66,7 @@ class TBack(TObj):
         self.name = "Back[JSONGrammar]"
 
 
-schema(MB, {"props": J.PROPS_T, "req": NAMES, "has_req": TBool, "meta": J.SCHEMA_T})
+schema(MB, {"props": J.PROPS_T, "req": NAMES, "has_req": TBool, "has_strategy": TBool, "meta": J.SCHEMA_T})
 schema(RNJ, {"_RequiredNames__names": NAMES, "_RequiredNames__grammar": TBack()})
 schema(DFJ, {"_Defaults__data": DATA, "_Defaults__grammar": TBack()})
 schema(JG, {
@@ -158,11 +159,28 @@ def cvb(g):
     """Cache validity, builder part."""
     return [("cache:schema-reflects-the-current-builder", z3.Implies(cache(g).n != 0, schema_reflects_builder(cache(g), g))),
             ("cache:validator-compiled-from-the-current-builder", z3.Implies(has_validator(g), validator_reflects_builder(the_validator(g), g))),
+            ("cache:required-keyword-lists-at-least-one-name", z3.Implies(z3.And(cache(g).n != 0, cache(g).has(R_)), J.names_of(cache(g).get(R_))[req_witness(cache(g).get(R_))])),
             ("builder:own-required-set-is-empty", idle(g))]
 
 
+# (Skolem function: a name listed by a "required" keyword value - genson only emits the keyword for a non-empty set)
+req_witness = J.required_witness
+
+
+def wfg_required(g):
+    """BaseGrammar's representation invariant (WFG, verified for the template methods in c15_grammars): the required names are elements."""
+    k = kq("k!wfr")
+    return [("wfg:required-names-are-elements", z3.ForAll([k], z3.Implies(req(g).member[k], props(g).member[k])))]
+
+
 def meta_wf(g):
-    m = meta(g)
+    b = bld(g)
+    return _meta_wf(meta(g)) + [
+        ("builder:required-set-only-with-a-root-strategy", z3.Implies(b.has_req, b.has_strategy)),
+        ("builder:no-property-without-a-root-strategy", z3.Implies(z3.Not(b.has_strategy), props(g).n == 0))]
+
+
+def _meta_wf(m):
     # ("id" / "name": _MergeStrategy.KEYWORDS declares them as handled keywords, genson therefore never re-emits them - natively confirmed)
     return [("builder:keywords-exclude-properties-required-id", z3.And(z3.Not(m.has(P_)), z3.Not(m.has(R_)), z3.Not(m.has(ID_)))),
             ("builder:has-a-$schema-keyword", m.has(lit("$schema")))]  # (genson: the root schema always carries its URI - default URI of a new builder)
@@ -175,7 +193,7 @@ def definition_kept(g0, g1, props_too=True, meta_too=True):
         out.append(("kept:properties", same_dict(props(g1), props(g0))))
     if meta_too:
         out.append(("kept:keywords", same_dict(meta(g1), meta(g0))))
-    out += [("kept:builder-tracks-required", bld(g1).has_req == bld(g0).has_req),
+    out += [("kept:builder-strategy", z3.And(bld(g1).has_strategy == bld(g0).has_strategy, z3.Implies(bld(g0).has_req, bld(g1).has_req))),
             ("kept:required-names", same_set(req(g1), req(g0))),
             ("kept:defaults", same_dict(dfl(g1), dfl(g0))),
             ("kept:name", g1.name == g0.name),
@@ -280,7 +298,7 @@ class Clear(_JG):
 
     def ensures(self, c):
         g0, g1 = c.old.self, c.new.self
-        return [("no-element", props(g1).n == 0), ("builder-tracks-no-required-names", z3.Not(bld(g1).has_req)),
+        return [("no-element", props(g1).n == 0), ("builder-tracks-no-required-names", z3.And(z3.Not(bld(g1).has_req), z3.Not(bld(g1).has_strategy))),
                 ("new-builder", z3.BoolVal(bld(g1).ref != bld(g0).ref)),
                 ("kept:required-names", same_set(req(g1), req(g0))), ("kept:defaults", same_dict(dfl(g1), dfl(g0))), ("kept:name", g1.name == g0.name)]
 
@@ -308,11 +326,6 @@ class RestrictTo(_JG):
 
 
 # ---------------------------------------------------------------------------- queries filling the caches
-def _cache_was_empty_or_listed(c):
-    g0 = c.old.self
-    return z3.Or(cache(g0).n == 0, lists_required(cache(g0).member, cache(g0).vals, req(g0)))
-
-
 @register
 class Schema(_JG):
     """The dictionary of the CURRENT definition: current properties and keywords (from CVB) and the current required names; the definition is not changed
@@ -320,12 +333,11 @@ class Schema(_JG):
 
     targets = (JG + ".schema",)
     returns = J.SCHEMA_T
-    modifies = ("self", BUILDER + ".req")
-    inline_ok = True  # returns the cached dictionary itself (callers edit it: _create_validator)
+    modifies = ("self", BUILDER)  # (the builder: `required` attaches an empty set to a strategy that has none - 63aba35)
+    inline_ok = True  # returns the cached dictionary itself
 
-    def finding_regions(self, c):
-        g0 = c.old.self
-        return {"schema-is-cached-or-builder-tracks-no-required-names": z3.Or(cache(g0).n != 0, z3.Not(bld(g0).has_req))}
+    def requires(self, c):
+        return _JG.requires(self, c) + wfg_required(c.old.self)
 
     def ensures(self, c):
         g0, g1, r = c.old.self, c.new.self, c.result
@@ -334,7 +346,7 @@ class Schema(_JG):
             ("result:reflects-the-current-builder", schema_reflects_builder(r, g1)),
             ("kept:cached-validator", validator(g1).term == validator(g0).term),
         ] + definition_kept(g0, g1) + [
-            # (last: fails on the pinned tree, see finding_regions)
+            # (was a known finding until e774076 / 63aba35: stale cache after required_names.add/discard; lost synchronisation)
             ("result:lists-the-current-required-names", lists_required(r.member, r.vals, req(g0))),
         ]
 
@@ -344,11 +356,10 @@ class CreateValidator(_JG):
     """A validator compiled from the CURRENT definition; the definition is not changed and the cached schema stays the one of the definition."""
 
     targets = (JG + "._create_validator",)
-    modifies = ("self", BUILDER + ".req")
+    modifies = ("self", BUILDER)
 
-    def finding_regions(self, c):
-        g0 = c.old.self
-        return {"grammar-has-required-names": req(g0).n != 0}
+    def requires(self, c):
+        return _JG.requires(self, c) + wfg_required(c.old.self)
 
     def ensures(self, c):
         g0, g1 = c.old.self, c.new.self
@@ -359,8 +370,9 @@ class CreateValidator(_JG):
             ("builder:own-required-set-is-empty", idle(g1)),
         ] + meta_wf(g1) + definition_kept(g0, g1) + [
             ("cache:schema-reflects-the-current-builder", z3.Implies(s1.n != 0, schema_reflects_builder(s1, g1))),
-            # (last: fails on the pinned tree - `self.schema.pop("required")` edits the cached dictionary itself)
-            ("cache:schema-still-lists-the-required-names", z3.Implies(z3.And(_cache_was_empty_or_listed(c), bld(g0).has_req, s1.n != 0), lists_required(s1.member, s1.vals, req(g0)))),
+            # (was a known finding until 0717736: the pops edited the cached dictionary itself)
+            ("cache:schema-still-lists-the-required-names", z3.Implies(s1.n != 0, lists_required(s1.member, s1.vals, req(g0)))),
+            ("cache:required-keyword-lists-at-least-one-name", dict(cvb(g1))["cache:required-keyword-lists-at-least-one-name"]),
         ]
 
 
@@ -377,10 +389,6 @@ def _source(src):
         return src.props.n != 0, src.props.member, src.props.vals, z3.And(src.has_req, src.req.n != 0), src.req.member
     pv, rv = src.get(P_), src.get(R_)
     return src.has(P_), J.props_names(pv), J.props_nodes(pv), src.has(R_), J.names_of(rv)
-
-
-def _builder_meta_wf(m):
-    return z3.And(z3.Not(m.has(P_)), z3.Not(m.has(R_)), z3.Not(m.has(ID_)), m.has(lit("$schema")))
 
 
 def _merged_props(p0, p1, taken, node, update):
@@ -407,9 +415,10 @@ class AddSchema(_MBC):
         k = kq("k!as")
         return _merged_props(b0.props, b1.props, lambda x: z3.And(has_p, pn[x]), lambda x: pv[x], c.old.update) + [
             ("assumed:tracks-required", b1.has_req == z3.Or(b0.has_req, has_r)),
+            ("assumed:root-strategy", z3.And(z3.Implies(b0.has_strategy, b1.has_strategy), z3.Implies(b1.has_req, b1.has_strategy), z3.Implies(z3.Not(b1.has_strategy), b1.props.n == 0))),
             ("assumed:own-required", z3.ForAll([k], b1.req.member[k] == z3.If(has_r, z3.If(b0.has_req, z3.And(b0.req.member[k], rn[k]), rn[k]), b0.req.member[k]))),
             ("assumed:own-required-size", z3.Implies(z3.Or(z3.Not(has_r), z3.And(b0.has_req, b0.req.n == 0)), b1.req.n == z3.If(has_r, 0, b0.req.n))),
-            ("assumed:keywords", _builder_meta_wf(b1.meta))]
+            ("assumed:keywords", z3.And(*[f for _, f in _meta_wf(b1.meta)]))]
 
 
 @register
@@ -425,10 +434,10 @@ class AddObject(_MBC):
         k = kq("k!ao")
         node = z3.Function("json_node_of_" + str(o.obj.v.sort()).replace(" ", "_"), o.obj.v.sort(), J.ValS)
         return _merged_props(b0.props, b1.props, lambda x: o.has(x), lambda x: node(o.get(x)), c.old.update) + [
-            ("assumed:tracks-required", b1.has_req),
+            ("assumed:tracks-required", z3.And(b1.has_req, b1.has_strategy)),
             ("assumed:own-required", z3.ForAll([k], b1.req.member[k] == z3.If(b0.has_req, z3.And(b0.req.member[k], o.has(k)), o.has(k)))),
             ("assumed:own-required-size", z3.Implies(z3.And(b0.has_req, b0.req.n == 0), b1.req.n == 0)),
-            ("assumed:keywords", _builder_meta_wf(b1.meta))]
+            ("assumed:keywords", z3.And(*[f for _, f in _meta_wf(b1.meta)]))]
 
 
 @register
@@ -515,9 +524,6 @@ class UpdateFromSchema(_JG):
     modifies = ("self", BUILDER, "self._required_names")
     raises = {"KeyError": None}
 
-    def finding_regions(self, c):
-        return {"builder-already-tracks-required-names": bld(c.old.self).has_req}
-
     def ensures(self, c):
         g0, g1, s = c.old.self, c.new.self, c.old.schema
         k = kq()
@@ -527,7 +533,7 @@ class UpdateFromSchema(_JG):
             ("required:old-ones-kept", z3.ForAll([k], z3.Implies(r0.member[k], r1.member[k]))),
             ("required:only-those-of-the-schema-added", z3.ForAll([k], z3.Implies(r1.member[k], z3.Or(r0.member[k], _schema_required(s)(k))))),
             ("required:are-elements", z3.ForAll([k], z3.Implies(z3.And(r1.member[k], z3.Not(r0.member[k])), props(g1).has(k)))),
-            # (last: fails on the pinned tree when the builder already tracks a - cleared - required set: genson intersects, see finding_regions)
+            # (was a known finding until 02afd7d: genson intersects with the builder's own - cleared - required set)
             ("required:those-of-the-schema-added", z3.ForAll([k], z3.Implies(_schema_required(s)(k), r1.member[k]))),
         ]
 
@@ -559,7 +565,7 @@ def _update_inv(c, k):
     gone = lambda y: z3.And(c.old.excluded_names.member[y], pos[y] < k)  # noqa: E731
     return [("copy:properties", removed(sb.props, props(o), gone)),
             ("copy:is-a-copy", z3.BoolVal(sb.ref != bld(o).ref and sb.props.ref != props(o).ref)),
-            ("copy:own-required", z3.And(sb.has_req == bld(o).has_req, sb.req.n == bld(o).req.n)),
+            ("copy:own-required", z3.And(sb.has_req == bld(o).has_req, sb.has_strategy == bld(o).has_strategy, sb.req.n == bld(o).req.n)),
             ("copy:keywords", same_dict(sb.meta, meta(o)))]
 
 
@@ -571,7 +577,10 @@ class Validate(_JG):
     targets = (JG + "._validate",)
     params = {"data": DATA, "error_message": TMsg()}
     returns = TBool
-    modifies = ("self", BUILDER + ".req")
+    modifies = ("self", BUILDER)
+
+    def requires(self, c):
+        return _JG.requires(self, c) + wfg_required(c.old.self)
 
     def ensures(self, c):
         g0, g1 = c.old.self, c.new.self
@@ -615,7 +624,10 @@ class ToJson(_JG):
 
     targets = (JG + ".to_json",)
     returns = TStr
-    modifies = ("self", BUILDER + ".req")
+    modifies = ("self", BUILDER)
+
+    def requires(self, c):
+        return _JG.requires(self, c) + wfg_required(c.old.self)
 
     def ensures(self, c):
         g0, g1 = c.old.self, c.new.self
@@ -648,3 +660,92 @@ class UpdateFromTypes(_JG):
     def raise_ensures(self, c, exc):
         g0, g1 = c.old.self, c.new.self
         return [("unchanged:properties", same_dict(props(g1), props(g0)))] + caches_kept(g0, g1)
+
+
+# ---------------------------------------------------------------------------- the two live views of the builder, on the genson representation
+# The abstract builder model (pyvc/plug_json.py) reads `builder.properties` / `builder.required` as the LIVE containers of the root strategy.  The two
+# properties are verified here against that reading on the representation they really use: builder._root_node._active_strategies[0]._properties/_required
+# (no strategy: the list is empty; `_required` is None until genson sees a "required" keyword / an object).
+GN, GS = "genson.schema.node.SchemaNode", "genson.schema.strategies.object.Object"
+MBG = MB + "#genson"
+
+
+class TStrategies(J.T):
+    """``_active_strategies``: no strategy, or the root Object strategy."""
+
+    name = "Strategies"
+
+    def fresh_in(self, st, hint, owner):
+        # (the strategy object is also reachable through the ghost field `_ghost_root` of the node, so that a frame can name it)
+        root = st.heap[owner.id].fields["_ghost_root"]
+        return () if st.choose(2) == 0 else (root,)
+
+    def fresh(self, st, hint):
+        raise J.Unsupported("only inside a schema node")
+
+
+class TOptNames(J.T):
+    """``_required``: None or a set of names."""
+
+    name = "OptNames"
+
+    def fresh(self, st, hint):
+        return None if st.choose(2) == 0 else NAMES.fresh(st, hint)
+
+
+schema(GS, {"_properties": J.PROPS_T, "_required": TOptNames()})
+schema(GN, {"_ghost_root": TObj(GS), "_active_strategies": TStrategies()})
+schema(MBG, {"_root_node": TObj(GN)})
+
+
+def _strategy(c, new=False):
+    heap = c._new_heap if new else c._old_heap
+    node = heap[heap[c.arg("self").id].fields["_root_node"].id]
+    ss = node.fields["_active_strategies"]
+    return heap[ss[0].id] if ss else None
+
+
+class _Live(Contract):
+    prop = ("C15",)
+    variant = "genson"  # (call sites use the abstract model, which is this contract read on (has_strategy, has_req, req, props))
+    self_schema = MBG
+
+
+@register
+class BuilderRequired(_Live):
+    """The set ATTACHED to the root strategy (an empty one is attached when there was none: an update of the returned set is never lost);
+    a new empty set only when there is no strategy at all."""
+
+    targets = (MB + ".required",)
+    returns = NAMES
+    modifies = ("self._root_node._ghost_root",)  # the root strategy (only its `_required` may change, see the clauses)
+
+    def ensures(self, c):
+        s0, s1 = _strategy(c), _strategy(c, new=True)
+        r = c.result
+        if s0 is None:
+            return [("no-strategy:new-empty-set", r.n == 0)]
+        had = s0.fields["_required"]
+        now = s1.fields["_required"]
+        out = [("attached:the-result-is-the-set-of-the-strategy", z3.BoolVal(now is not None and r.ref == now)),
+               ("properties-untouched", z3.BoolVal(s1.fields["_properties"] == s0.fields["_properties"]))]
+        if had is None:
+            out.append(("attached:empty-when-there-was-none", r.n == 0))
+        else:
+            out.append(("attached:the-same-set-as-before", z3.BoolVal(now == had)))
+        return out
+
+
+@register
+class BuilderProperties(_Live):
+    """The dictionary of the root strategy itself; a new empty dictionary when there is no strategy."""
+
+    targets = (MB + ".properties",)
+    returns = J.PROPS_T
+
+    def ensures(self, c):
+        s0, s1 = _strategy(c), _strategy(c, new=True)
+        r = c.result
+        if s0 is None:
+            return [("no-strategy:new-empty-dict", r.n == 0)]
+        return [("live:the-result-is-the-dict-of-the-strategy", z3.BoolVal(r.ref == s1.fields["_properties"] and s1.fields["_properties"] == s0.fields["_properties"]))]
